@@ -12,7 +12,7 @@ TEXT = {
             'Exact under bandwidth | volume (lemma L3, solver-checked to 2^8/2^11 bits); rational reading otherwise. DAGs <= 3 tasks in whole-simulation runs.'),
     'C04': ('Whole bounded simulations of the real actors (real SimPy, real networkx, pandas stub) under Batch/Queue/adversarial algorithms and injected delays; on return: every observation observed once, every ingest and workflow task activated exactly once, quiescent state, task table has one row per executed task.',
             'Bounds: <= 3 observations, <= 3 tasks, starts 0..4, durations 1..3; time-like inputs are case-split by the solver and each case runs natively.'),
-    'C05': ('Unit harness 'a transient shortage only postpones' (machines busy / ingest limit used up for k steps, buffer sizes unbounded symbolic); whole simulations with a step cap equal to the serial bound of the statement: unbounded symbolic data rates/capacities (traced end to end) and case-split timing grids with machine/ingest-limit shortage, three simultaneous starts and non-topological node labels; one round of the greedy algorithm on symbolic states; any exception or hitting the cap is a violation tagged by site / blocked-state signature.',
+    'C05': ('Unit harness "a transient shortage only postpones" (machines busy / ingest limit used up for k steps, buffer sizes unbounded symbolic); whole simulations with a step cap equal to the serial bound of the statement: unbounded symbolic data rates/capacities (traced end to end) and case-split timing grids with machine/ingest-limit shortage, three simultaneous starts and non-topological node labels; one round of the greedy algorithm on symbolic states; any exception or hitting the cap is a violation tagged by site / blocked-state signature.',
             'Two open known findings (tiering strands an observation in the cold buffer). Symbolic-size shards are bug-hunting only unless they exhaust (reported per shard). Horizon <= ~80 steps.'),
     'C06': ('Engine B: Task.do_work/calculate_runtime executed symbolically from their current source into z3 integer terms; runtime formula, at-least-one, exit instant, flagging and monotonicity proved over unbounded integers (z3, cross-checked by cvc5); also through the scheduler path (update_allocation then do_work); float division cut by lemma L1 (QF_BVFP, checked each run); CrossHair end-to-end harnesses with the real cluster poll, task table and scheduler path; whole simulations check the recorded runtime of every task.',
             'L1 solver-checked for operands < 2^8 (quick) / 2^11 (thorough), argued to 2^26, not claimed above.'),
